@@ -223,6 +223,8 @@ def make_evo(arr, mode="se3", stamped=True, meta=None, flavour="array64"):
 
 def all_integer(a):
     a = np.asarray(a, dtype=float)
+    if np.any(np.signbit(a) & (a == 0)):
+        return False  # an integer container cannot hold -0.0: the object would not describe `a` bit for bit
     return bool(np.all(a == np.round(a))) and (a.size == 0 or float(np.max(np.abs(a))) < 2**50)
 
 
